@@ -126,6 +126,45 @@ def run(tier, seed):
         R.violation(f'rust-subst:{why}:{kind}', f'lib.rs {"apply_esubst" if kind == "SE" else "apply_ssubst"}({G.show(a)}, {x}, {G.show(rr)}) = {G.show(got)}: {why}',
                     {'function': kind, 'pattern': G.show(a), 'var': x, 'plug': G.show(rr), 'got': G.show(got), 'textbook': G.show(ref),
                      'request': f'{kind} {G.phex(a)} {x} {G.phex(rr)}'})
+    # composition law on the Rust side: I(I(p,d),d') == I(p, d' o d) whenever first step and composed are defined
+    comp = []
+    for _ in range(nrand // 4):
+        p0 = G.gen_pat(rng, rng.choice([1, 2, 3]), names=3)
+        ids = sorted(O.mvar_ids(p0)) or [0]
+        v1 = [i for i in ids if rng.random() < 0.7] or ids[:1]
+        pl1 = [G.gen_pat(rng, rng.choice([0, 1, 2]), names=3, meta=True, subst=rng.random() < 0.3) for _ in v1]
+        inner = sorted(set().union(*[O.mvar_ids(q) for q in pl1]) | set(ids))
+        v2 = [i for i in inner if rng.random() < 0.7]
+        pl2 = [G.gen_pat(rng, rng.choice([0, 1]), names=3, meta=rng.random() < 0.3, subst=False) for _ in v2]
+        comp.append((p0, v1, pl1, v2, pl2))
+
+    def ireq(pt, vs, pls):
+        return (f'I {G.phex(pt)} {G.hexs(vs)} ' + ' '.join(G.phex(q) for q in pls)).strip()
+    step1 = C.run_lines_parallel(tie.rsref, [ireq(p0, v1, pl1) for p0, v1, pl1, v2, pl2 in comp])
+    plugs2 = C.run_lines_parallel(tie.rsref, [ireq(q, v2, pl2) for p0, v1, pl1, v2, pl2 in comp for q in pl1])
+    k = 0
+    reqs2, reqs3, idx = [], [], []
+    for n_, ((p0, v1, pl1, v2, pl2), q1) in enumerate(zip(comp, step1)):
+        pl1c = plugs2[k:k + len(pl1)]
+        k += len(pl1)
+        if q1 == 'REJECT' or any(x == 'REJECT' for x in pl1c):
+            continue
+        reqs2.append(ireq(G.dec(G.unhex(q1)), v2, pl2))
+        reqs3.append((f'I {G.phex(p0)} {G.hexs(v1 + v2)} ' + ' '.join(pl1c + [G.phex(q) for q in pl2])).strip())
+        idx.append(n_)
+    out2 = C.run_lines_parallel(tie.rsref, reqs2)
+    out3 = C.run_lines_parallel(tie.rsref, reqs3)
+    ncomp = 0
+    for n_, a2, a3, r2, r3 in zip(idx, out2, out3, reqs2, reqs3):
+        R.case(('compose', r3), nontrivial=(a3 != 'REJECT'), kind='compose:' + ('both-defined' if a3 != 'REJECT' and a2 != 'REJECT' else 'rejected'))
+        if a3 != 'REJECT':
+            ncomp += 1
+            if a2 != a3:
+                p0, v1, pl1, v2, pl2 = comp[n_]
+                R.violation('rust-inst:composition-law', 'instantiating twice differs from instantiating once with the composed map',
+                            {'pattern': G.show(p0), 'first': [v1, [G.show(q) for q in pl1]], 'second': [v2, [G.show(q) for q in pl2]],
+                             'sequential_request': r2, 'sequential': a2, 'composed_request': r3, 'composed': a3})
+    R.hist['compose:checked'] = ncomp
     for c in (lines[0], lines[len(ex) * 2], lines[-1]):
         R.sample({'request': c})
 
